@@ -3,6 +3,7 @@
 package sim
 
 import (
+	"os"
 	"runtime"
 	"sync"
 	"time"
@@ -51,6 +52,8 @@ func autoLocksHeld(c *smtp.Conn, s *smtp.Server) bool {
 	}
 	autoReg.mu.Unlock()
 	probe := func() bool {
+		probeMu.Lock()
+		defer probeMu.Unlock()
 		if smtp.VerifLocksHeld(c, s) {
 			return true
 		}
@@ -64,7 +67,7 @@ func autoLocksHeld(c *smtp.Conn, s *smtp.Server) bool {
 	if !probe() {
 		return false
 	}
-	for i := 0; i < 200; i++ {
+	for i := 0; i < probeYields; i++ {
 		runtime.Gosched()
 		if !probe() {
 			return false
@@ -72,6 +75,8 @@ func autoLocksHeld(c *smtp.Conn, s *smtp.Server) bool {
 	}
 	return true
 }
+
+var autoDebug = os.Getenv("VERIF_AUTODEBUG") != ""
 
 func installAutoYield(cfg *AutoYieldCfg, h *History) func() {
 	if cfg == nil {
@@ -89,9 +94,15 @@ func installAutoYield(cfg *AutoYieldCfg, h *History) func() {
 		} else if (hp^cfg.Salt)%uint64(cfg.Mod) != 0 {
 			return
 		}
+		if autoDebug {
+			mu.Lock()
+			h.AutoParks = append(h.AutoParks, AutoPark{At: time.Now().UnixNano(), Site: point + " (entered)"})
+			mu.Unlock()
+		}
 		if autoLocksHeld(c, s) {
 			mu.Lock()
 			h.AutoSkipped++
+			h.AutoParks = append(h.AutoParks, AutoPark{At: time.Now().UnixNano(), Site: point + " PASSED WITH A MUTEX HELD (no park)"})
 			mu.Unlock()
 			return
 		}
